@@ -8,6 +8,7 @@
 //     shard sleeps): they must end (Timeout / Dropped / ...) within the requested deadline plus
 //     slack instead of hanging, and may not complete;
 //   - after the partition healed: they complete again.
+//
 // The engine runs on the wall clock; all limits below leave a wide margin (a Timeout is "early"
 // only when it arrives before half of the requested time, a request "hangs" only when nothing
 // arrived three seconds after its deadline). spec/QuiesceHostTrace.tla judges the Req events.
